@@ -955,7 +955,7 @@ Lemma fmatch_eq : forall k r nx sz now, fmatch k (item_of r nx) sz now = s_match
 Proof.
   intros. unfold fmatch, s_match. simpl. destruct k; auto. destruct (r_flt r); auto.
   unfold s_match_stanza. rewrite !opt_match_eq. f_equal. f_equal.
-  unfold ns_match. destruct ns as [f|]; auto. rewrite child_by_ns_eq. f_equal.
+  unfold ns_match. destruct ns as [f|]; auto. rewrite child_by_ns_eq. reflexivity.
 Qed.
 
 Lemma gate_eq : forall k st R r nx, neg st = g_neg R -> vis k r = true ->
@@ -2569,17 +2569,18 @@ Proof.
   - inversion H. apply str_eqb_refl.
 Qed.
 
-Theorem match_spec_lemma : forall ns name type sz,
-  s_match_stanza ns name type sz = true <-> stanza_filter_matches ns name type sz.
+Theorem match_spec_lemma : forall user ns name type sz,
+  s_match_stanza user ns name type sz = true <-> stanza_filter_matches user ns name type sz.
 Proof.
-  intros ns name type sz. unfold s_match_stanza, stanza_filter_matches.
+  intros user ns name type sz. unfold s_match_stanza, stanza_filter_matches.
   rewrite !andb_true_iff.
-  assert (A : (match ns with None => true | Some _ => ostr_eqb (st_ns sz) ns || existsb (fun c => ostr_eqb c ns) (st_children sz) end) = true
-              <-> (ns = None \/ st_ns sz = ns \/ (ns <> None /\ In ns (st_children sz)))).
+  assert (A : (match ns with None => true
+               | Some _ => ostr_eqb (st_ns sz) ns || (user && existsb (fun c => ostr_eqb c ns) (st_children sz)) end) = true
+              <-> (ns = None \/ st_ns sz = ns \/ (user = true /\ ns <> None /\ In ns (st_children sz)))).
   { destruct ns as [n|].
-    - rewrite orb_true_iff, ostr_eqb_eq, existsb_exists. split.
-      + intros [H|[c [Hc E]]]; auto. apply ostr_eqb_eq in E. subst c. right. right. split; [discriminate|auto].
-      + intros [H|[H|[_ H]]]; [discriminate|auto|]. right. exists (Some n). split; auto. apply ostr_eqb_eq. auto.
+    - rewrite orb_true_iff, andb_true_iff, ostr_eqb_eq, existsb_exists. split.
+      + intros [H|[U [c [Hc E]]]]; auto. apply ostr_eqb_eq in E. subst c. right. right. repeat split; [auto|discriminate|auto].
+      + intros [H|[H|[U [_ H]]]]; [discriminate|auto|]. right. split; auto. exists (Some n). split; auto. apply ostr_eqb_eq. auto.
     - split; auto. }
   assert (B : forall flt v, (match flt with None => true | Some _ => ostr_eqb v flt end) = true <-> (flt = None \/ v = flt)).
   { intros [f|] v.
